@@ -4,10 +4,12 @@ import Driver.Stmts
 import Driver.Cursor
 import Driver.Lists
 import Driver.Pratt
+import Driver.ExprPrint
 import Driver.Tok
 import Driver.Escape
 import Driver.Visit
 import Driver.Serde
+import Driver.DataType
 /-! Model driver: one request per line `op \t arg …`, one answer per line. -/
 namespace Driver
 
@@ -20,10 +22,14 @@ def dispatch (line : String) : String :=
   | "prec" :: args => Pr.handlePrec args
   | "chains" :: args => Pr.handleChains args
   | "setops" :: args => Pr.handleSetops args
+  | "exprprint" :: args => Pr.handleExprPrint args
+  | "exprtoks" :: args => Pr.handleExprToks args
   | "tok" :: args => handleTok args
   | "print" :: args => handlePrint args
   | "visit" :: args => handleVisit args
   | "serde" :: args => handleSerde args
+  | "dtparse" :: args => DTyD.handleParse args
+  | "dtprint" :: args => DTyD.handlePrint args
   | _ => "bad-op"
 
 partial def loop (h : IO.FS.Stream) (out : IO.FS.Stream) : IO Unit := do
